@@ -205,6 +205,8 @@ impl RepSocketBackend {
 //@ receiver-mut
 //@ spec
 //@|        ensures final(self).peers@ == old(self).peers@.remove(*peer_id),
+//@|            // C16: the queued read half is dropped as well
+//@|            final(self).fair_queue_inner.inner.streams@ == old(self).fair_queue_inner.inner.streams@.remove(*peer_id),
 //@ end
 
 //@ item src/rep.rs :: impl MultiPeerBackend for RepSocketBackend / fn peer_connected
@@ -295,11 +297,15 @@ impl RepSocket {
 //@ spec
 //@|        ensures
 //@|            rep_received(*old(self), *final(self), r),
+//@|            // C16: a peer whose failure this call reports is forgotten COMPLETELY - the queued read half goes too, so
+//@|            // the same failure cannot be reported again; otherwise the queue keeps every stream
+//@|            rep_forgets(*old(self), *final(self)),
 //@ loop 1
 //@|            invariant
 //@|                self.envelope == old(self).envelope,
 //@|                self.current_request == old(self).current_request,
 //@|                self.backend.peers@ == old(self).backend.peers@,
+//@|                self.backend.fair_queue_inner.inner.streams@ == old(self).backend.fair_queue_inner.inner.streams@,
 //@|                self.fair_queue.log@.len() >= old(self).fair_queue.log@.len(),
 //@|                self.fair_queue.log@.subrange(0, old(self).fair_queue.log@.len() as int) =~= old(self).fair_queue.log@,
 //@|                // everything consumed so far was a non-message item REP skips by design
@@ -327,6 +333,11 @@ spec fn rep_replied_to(s0: RepSocket, s1: RepSocket, r: ZmqResult<()>, frames: S
             && t1[p].send_queue.sent@.last() is Message
             && t1[p].send_queue.sent@.last()->Message_0.fr() =~= env + frames
     &&& r is Err ==> t1[p].send_queue.sent@ == t0[p].send_queue.sent@
+}
+spec fn rep_forgets(s0: RepSocket, s1: RepSocket) -> bool {
+    let last = s1.fair_queue.log@.last();
+    let q0 = s0.backend.fair_queue_inner.inner.streams@; let q1 = s1.backend.fair_queue_inner.inner.streams@;
+    if last is Some && last->Some_0.1 is Err { q1 == q0.remove(last->Some_0.0) } else { q1 == q0 }
 }
 spec fn rep_received(s0: RepSocket, s1: RepSocket, r: ZmqResult<ZmqMessage>) -> bool {
     let l0 = s0.fair_queue.log@; let l1 = s1.fair_queue.log@;
